@@ -480,6 +480,28 @@ func rxRune(r *rng, o gxOpts) runeSpec {
 }
 
 func gxRune(r *rng, o gxOpts) *GX {
+	if r.chance(1, 8) {
+		// a list that also holds values which cannot be encoded (surrogate halves, out of range): the generator yields
+		// what is listed, and the caller's slice stays the caller's
+		list := append([]rune(nil), pick(r, [][]rune{{0xD800, 'a', 'b'}, {'a', 0xDFFF, 'b', -1}, {0x110000, 'q'}, {'x', 'y', 0xDC00}})...)
+		orig := append([]rune(nil), list...)
+		desc := fmt.Sprintf("RuneFrom(%U)", orig)
+		return &GX{Desc: desc, Gen: rapid.RuneFrom(list).AsAny(), Cmp: true, Int: true, post: func() string {
+			if !reflect.DeepEqual(list, orig) {
+				return fmt.Sprintf("the rune list given to RuneFrom was modified: %U -> %U", orig, list)
+			}
+			return ""
+		}, Check: func(v any) string {
+			x, ok := v.(rune)
+			if !ok {
+				return fmt.Sprintf("%s returned %T", desc, v)
+			}
+			if !runeIn(x, orig, nil) {
+				return fmt.Sprintf("%s returned %#x which is not in the list", desc, x)
+			}
+			return ""
+		}}
+	}
 	rs := rxRune(r, o)
 	return &GX{Desc: rs.desc, Gen: rs.gen.AsAny(), Cmp: true, Int: true, Check: func(v any) string {
 		x, ok := v.(rune)
